@@ -1679,5 +1679,110 @@ theorem settledFromV_of_viewLines (D : DenseWorldV) (lines : List String)
       have this' : viewOp op = true := this
       rw [this', Bool.true_or]
 
+/-! ### what the dense world says about views: resolution and write-through, pixel by pixel -/
+
+/-- a name that resolves with the view flag is bound to a descriptor whose parent's name is bound
+    to an owning record map; what it shows is `viewF` of that map -/
+theorem getV_view {D : DenseWorldV} {n pn : String} {i : Nat} {d : DenseMapC}
+    (h : D.get? n = some (d, some (pn, i))) :
+    ∃ dp dt s, D.raw? n = some (.view pn i dt s) ∧ D.raw? pn = some (.own dp) ∧
+      d = viewF dp i dt s ∧ s = recField i dp.toDense.blank ∧ dt ≠ .bool ∧
+      ∃ fs pr, dp.toDense.kind = .recd fs pr ∧ fs[i]? = some dt := by
+  unfold DenseWorldV.get? at h
+  split at h
+  · cases h
+  · cases h
+  · rename_i pn' i' dt s hn
+    split at h
+    · rename_i p hp
+      unfold resolveV at h
+      split at h
+      · cases h
+      · rename_i hs
+        split at h
+        · rename_i fs pr hk
+          split at h
+          · rename_i dt' hg
+            split at h
+            · rename_i hdt
+              cases h
+              have hdt' := of_decide_eq_true hdt
+              obtain ⟨rfl, hnb⟩ := hdt'
+              exact ⟨p, dt', s, hn, hp, rfl, by simpa using hs, hnb, fs, pr, hk, hg⟩
+            · cases h
+          · cases h
+        · cases h
+    · cases h
+
+/-- **an accepted write through a view, dense side**: the call on the dense view was accepted by
+    `dUpdate`, no addressed pixel read as the view's sentinel (nothing becomes valid), and the
+    parent's name is rebound to `writeBackF` -/
+theorem dRunReqView_ok {D D' : DenseWorldV} {pn : String} {i : Nat} {dp dv : DenseMapC}
+    {op : String} {pix : List Nat} {vals : Option (List Val)} {single : Bool}
+    (h : dRunReqView D pn i dp dv (.upd op pix vals single) = (D', "ok")) :
+    ∃ dv', dUpdate dv.toDense op pix vals single none = .ok dv' ∧
+      growthD dv.toDense pix = false ∧ D' = D.bind pn (.own (writeBackF dp i dv')) := by
+  simp only [dRunReqView, dUpdateView] at h
+  cases hr : postView (growthD dv.toDense pix) (dUpdate dv.toDense op pix vals single none) with
+  | error e =>
+    rw [hr] at h
+    exact absurd (congrArg Prod.snd h) (ApiRecord.errLine_ne_ok e)
+  | ok dv' =>
+    rw [hr] at h
+    unfold postView at hr
+    cases hu : dUpdate dv.toDense op pix vals single none with
+    | error e =>
+      rw [hu] at hr
+      simp only [] at hr
+      split at hr <;> cases hr
+    | ok d2 =>
+      rw [hu] at hr
+      simp only [] at hr
+      split at hr
+      · cases hr
+      · rename_i hg
+        cases hr
+        exact ⟨dv', rfl, by simpa using hg, (congrArg Prod.fst h).symm⟩
+
+/-- the written-back parent: header and mask kept; every field but `i` kept at every pixel; a
+    pixel the call did not address is unchanged altogether -/
+theorem writeBackF_spec (dp : DenseMapC) (i : Nat) (dt : DT) (s : Val) {dv' : DenseMap}
+    {op : String} {pix : List Nat} {vals : Option (List Val)} {single : Bool} {ru : Option Bool}
+    (hu : dUpdate (viewF dp i dt s).toDense op pix vals single ru = .ok dv') :
+    (writeBackF dp i dv').cov = dp.cov ∧
+    (writeBackF dp i dv').toDense.kind = dp.toDense.kind ∧
+    (writeBackF dp i dv').toDense.sent = dp.toDense.sent ∧
+    (∀ q, (writeBackF dp i dv').toDense.f q = recSetField i (dp.toDense.f q) (dv'.f q)) ∧
+    (∀ q j, j ≠ i → recField j ((writeBackF dp i dv').toDense.f q) = recField j (dp.toDense.f q)) ∧
+    (∀ q, q ∉ pix → (writeBackF dp i dv').toDense.f q = dp.toDense.f q) := by
+  refine ⟨rfl, rfl, rfl, fun _ => rfl, fun q j hj => ?_, fun q hq => ?_⟩
+  · exact ApiRecord.recField_recSetField_ne hj _ _
+  · show recSetField i (dp.toDense.f q) (dv'.f q) = _
+    rw [(dUpdate_ok hu).2.2.2.2 q hq]
+    exact WFApi.recSetField_recField i _
+
+/-- an accepted write addressed only pixels already valid in the view -/
+theorem growthD_false {d : DenseMap} {pix : List Nat} (h : growthD d pix = false) :
+    ∀ p ∈ pix, p < d.npix → d.f p ≠ d.sent := by
+  intro p hp hlt he
+  unfold growthD at h
+  have : (pix.any fun p => decide (p < d.npix) && d.f p == d.sent) = true :=
+    List.any_eq_true.2 ⟨p, hp, by simp [hlt, he]⟩
+  rw [h] at this
+  cases this
+
+/-- **a refused write request leaves the dense world as it is** (on either kind of target) -/
+theorem dRunReqV_refused (D : DenseWorldV) (n : String) (d : DenseMapC)
+    (v : Option (String × Nat)) (req : WReq) :
+    (dRunReqV D n d v req).1 = D ∨ (dRunReqV D n d v req).2 = "ok" := by
+  unfold dRunReqV
+  split
+  · cases req <;> simp only [dRunReqOwn] <;> (try split) <;>
+      first | exact Or.inl rfl | exact Or.inl trivial | exact Or.inr rfl | exact Or.inr trivial
+  · split
+    · cases req <;> simp only [dRunReqView] <;> (try split) <;>
+        first | exact Or.inl rfl | exact Or.inl trivial | exact Or.inr rfl | exact Or.inr trivial
+    · exact Or.inl rfl
+
 end ApiDenseViews
 end HS
